@@ -483,3 +483,112 @@ Qed.
 (* names looked up by the C07 kit *)
 Lemma sample_unmarshal_total lsm1 have data s : snd (sample_unmarshal lsm1 have data) <> Panic s.
 Proof. unfold sample_unmarshal. apply sample_loop_total. Qed.
+
+(* ---- inversion: what the record reader accepts is the ISO layout (reserved and forbidden bits free) ---- *)
+Lemma read_sets_inv cnt : forall b acc e l b', wf_bytes b ->
+  read_sets cnt b acc e = (l, Ok b') ->
+  exists nbs, length nbs = cnt /\ Forall set_ok nbs /\ b = spec_sets nbs ++ b' /\ l = rev acc ++ map split_nalu nbs.
+Proof.
+  induction cnt as [|cnt IH]; intros b acc e l b' Hwf H; cbn [read_sets] in H.
+  - inversion H; subst. exists []. repeat split; [constructor|rewrite app_nil_r; reflexivity].
+  - destruct b as [|b0 [|b1 t]]; cbn [len_gt negb idx nth_error drop_chk take] in H; try discriminate.
+    destruct (len_ltN t (b0 * 256 + b1)) eqn:L; [discriminate|].
+    destruct (splitN t (b0 * 256 + b1)) as [[nb b2]|] eqn:S; [|discriminate].
+    destruct (splitN_some _ _ _ _ S) as [Et Hlen].
+    destruct (nalu_unmarshal nb) as [n|e'|s'] eqn:U; try discriminate.
+    assert (Hne : nb <> []) by (intros ->; cbn in U; discriminate).
+    rewrite (nalu_unmarshal_split nb Hne) in U. inversion U; subst n. clear U.
+    inversion Hwf as [|? ? Hb0 Hwf1]; subst. inversion Hwf1 as [|? ? Hb1 Hwf2]; subst.
+    unfold wf_byte in Hb0, Hb1.
+    assert (Hwf3 : wf_bytes b2) by (apply Forall_app in Hwf2; apply Hwf2).
+    destruct (IH b2 (split_nalu nb :: acc) e l b' Hwf3 H) as (nbs & Hn & Hok & Eb & El).
+    exists (nb :: nbs). split; [cbn [length]; congruence|]. split; [constructor; [split; [exact Hne|lia]|exact Hok]|].
+    split.
+    + rewrite spec_sets_cons, be_bytes_2, Hlen. rewrite <- !app_assoc. cbn [app].
+      replace (((b0 * 256 + b1) / 256) mod 256) with b0 by lia.
+      replace ((b0 * 256 + b1) mod 256) with b1 by lia. rewrite Eb. reflexivity.
+    + rewrite El. cbn [rev map]. rewrite <- app_assoc. reflexivity.
+Qed.
+
+Lemma rec_unmarshal_inv data r : wf_bytes data -> rec_unmarshal rec0 data = (r, Ok tt) ->
+  exists d4 d5 sps pps ext,
+    data = [r_ver r; r_prof r; r_compat r; r_level r; d4; d5] ++ spec_sets sps ++ [countN pps] ++ spec_sets pps ++ ext /\
+    d4 < 256 /\ d5 < 256 /\ r_lsm1 r = d4 mod 4 /\ countN sps = d5 mod 32 /\ countN pps < 256 /\
+    Forall set_ok sps /\ Forall set_ok pps /\
+    r_sps r = map split_nalu sps /\ r_pps r = map split_nalu pps /\
+    r_ver r < 256 /\ r_prof r < 256 /\ r_compat r < 256 /\ r_level r < 256.
+Proof.
+  intros Hwf H. unfold rec_unmarshal in H.
+  destruct data as [|d0 [|d1 [|d2 [|d3 [|d4 [|d5 t]]]]]]; cbn [len_gt negb idx nth_error drop_chk take] in H; try discriminate.
+  repeat match goal with W : wf_bytes (_ :: _) |- _ => inversion W; subst; clear W end.
+  repeat match goal with W : Forall wf_byte (_ :: _) |- _ => inversion W; subst; clear W end.
+  match goal with W : Forall wf_byte t |- _ => rename W into Wt end.
+  unfold wf_byte in *.
+  cbn [rec0 r_sps r_pps rev] in H.
+  destruct (read_sets (N.to_nat (d5 mod 32)) t [] 3) as [sps1 [b2|e|s]] eqn:R1; try discriminate.
+  destruct (read_sets_inv _ _ _ _ _ _ Wt R1) as (sps & Hns & Fs & Et & Es). cbn [rev app] in Es.
+  destruct b2 as [|npps t2]; cbn [len_gt negb idx nth_error drop_chk take] in H; [discriminate|].
+  assert (W2 : wf_bytes (npps :: t2)) by (rewrite Et in Wt; apply Forall_app in Wt; apply Wt).
+  inversion W2 as [|? ? Hnp W3]; subst. unfold wf_byte in Hnp.
+  destruct (read_sets (N.to_nat npps) t2 [] 6) as [pps1 [b3|e|s]] eqn:R2; try discriminate.
+  destruct (read_sets_inv _ _ _ _ _ _ W3 R2) as (pps & Hnpp & Fp & Et2 & Ep). cbn [rev app] in Ep.
+  inversion H; subst r. clear H. cbn [r_ver r_prof r_compat r_level r_lsm1 r_sps r_pps].
+  exists d4, d5, sps, pps, b3.
+  assert (Cs : countN sps = d5 mod 32) by (unfold countN; lia).
+  assert (Cp : countN pps = npps) by (unfold countN; lia).
+  rewrite Cp. repeat split; try assumption; try lia.
+  cbn [app]. rewrite Et2. reflexivity.
+Qed.
+
+(* consequence: marshalling whatever was unmarshalled writes the canonical form of the input --
+   reserved bits set, forbidden_zero_bits cleared, trailing bytes dropped; a canonical input is
+   reproduced *)
+Definition clear_forbidden (nb : bytes) : bytes :=
+  match nb with [] => [] | x :: t => x mod 128 :: t end.
+
+Lemma spec_split_clear nb : nb <> [] -> wf_bytes nb -> spec_nalu_bytes (split_nalu nb) = clear_forbidden nb.
+Proof.
+  destruct nb as [|x t]; [congruence|]. intros _ W. inversion W; subst. unfold wf_byte in *.
+  rewrite (spec_nalu_is_marshal _ (split_ok (x :: t))), nalu_marshal_eq.
+  cbn [split_nalu nref ntype ndata clear_forbidden]. rewrite reenc_byte by assumption. reflexivity.
+Qed.
+
+Lemma wf_spec_sets nbs rest : wf_bytes (spec_sets nbs ++ rest) -> Forall wf_bytes nbs /\ wf_bytes rest.
+Proof.
+  induction nbs as [|nb nbs IH]; intros W.
+  - split; [constructor|exact W].
+  - rewrite spec_sets_cons, <- !app_assoc in W. apply Forall_app in W. destruct W as [_ W].
+    apply Forall_app in W. destruct W as [W1 W2]. destruct (IH W2) as [A B]. split; [constructor; assumption|exact B].
+Qed.
+
+Lemma map_spec_split_clear nbs : Forall set_ok nbs -> Forall wf_bytes nbs ->
+  map spec_nalu_bytes (map split_nalu nbs) = map clear_forbidden nbs.
+Proof.
+  induction 1 as [|nb nbs [Hne _] Hrest IH]; intros W; [reflexivity|].
+  inversion W; subst. cbn [map]. rewrite IH by assumption. rewrite spec_split_clear by assumption. reflexivity.
+Qed.
+
+Lemma clear_forbidden_len nb : lenN (clear_forbidden nb) = lenN nb.
+Proof. destruct nb; [reflexivity|]. cbn [clear_forbidden]. rewrite !lenN_cons. reflexivity. Qed.
+
+Lemma rec_reenc_canonicalises data r : wf_bytes data -> rec_unmarshal rec0 data = (r, Ok tt) ->
+  exists d4 d5 sps pps ext,
+    data = [r_ver r; r_prof r; r_compat r; r_level r; d4; d5] ++ spec_sets sps ++ [countN pps] ++ spec_sets pps ++ ext /\
+    rec_marshal r = [r_ver r; r_prof r; r_compat r; r_level r; 252 + d4 mod 4; 224 + d5 mod 32]
+                    ++ spec_sets (map clear_forbidden sps) ++ [countN pps] ++ spec_sets (map clear_forbidden pps).
+Proof.
+  intros W H.
+  destruct (rec_unmarshal_inv data r W H) as (d4 & d5 & sps & pps & ext & E & H4 & H5 & El & Cs & Cp & Fs & Fp & Es & Ep & Hv & Hp & Hc & Hl).
+  exists d4, d5, sps, pps, ext. split; [exact E|].
+  assert (Ws : Forall wf_bytes sps /\ Forall wf_bytes pps).
+  { rewrite E in W. apply Forall_app in W. destruct W as [_ W].
+    destruct (wf_spec_sets _ _ W) as [A W1]. inversion W1; subst.
+    match goal with X : Forall wf_byte (spec_sets pps ++ ext) |- _ => destruct (wf_spec_sets _ _ X) as [B _] end.
+    split; assumption. }
+  destruct Ws as [Ws Wp].
+  rewrite rec_marshal_spec; rewrite ?Es, ?Ep, ?countN_map, ?El; try assumption; try lia.
+  - rewrite spec_record_bytes; rewrite ?countN_map; try assumption; try lia.
+    rewrite !map_spec_split_clear by assumption. rewrite Cs. reflexivity.
+  - rewrite Forall_map. eapply Forall_impl; [|exact Fs]. apply split_set_ok.
+  - rewrite Forall_map. eapply Forall_impl; [|exact Fp]. apply split_set_ok.
+Qed.
